@@ -36,6 +36,7 @@ type Program struct {
 
 	sameNames bool
 	curFile   *File
+	goRot     int
 }
 
 type File struct {
@@ -162,6 +163,9 @@ func ch(label string, n int) int { return simrt.Choice(label, n) }
 var dirs = []string{"", "a", "a/b", "c", "c/d"}
 var bases = []string{"root", "alpha", "beta", "gamma", "delta", "shared"}
 
+// goBases are file names that collide with packages the generated code imports.
+var goBases = []string{"root", "fmt", "errors", "strings", "wire", "stream", "zapcore", "multierr", "bytes", "thriftreflect", "ptr", "math", "strconv", "base64", "json"}
+
 // Gen draws a program.
 func Gen(o Options) *Program {
 	p := &Program{}
@@ -176,6 +180,13 @@ func Gen(o Options) *Program {
 		f := &File{Index: i, Base: bases[i%len(bases)]}
 		if i >= len(bases) {
 			f.Base = fmt.Sprintf("%s%d", f.Base, i)
+		}
+		if o.GoNames && i > 0 {
+			// distinct picks: index i-1 offsets into a rotation chosen once per program
+			if i == 1 {
+				p.goRot = ch("prog.go-bases", len(goBases)-1)
+			}
+			f.Base = goBases[1+(p.goRot+i-1)%(len(goBases)-1)]
 		}
 		f.Dir = dirs[ch("prog.dir", len(dirs))]
 		p.Files = append(p.Files, f)
